@@ -179,10 +179,43 @@ def check_c08(seed, tier, root=None):
         c = t.copy(os.path.join(d, "copy.tdf"))
         if _sha(work) != before:
             fails.append(_f("C08", "C08.reader_modified", "copy changed its source", dict(reader="copy"), seed))
+        # the object returned by copy is a new handle: no allow_write() was called on it, so it refuses mutations
+        # however write-enabled the source was when the copy was taken
+        for how in ("inside a write context", "after allow_write without context", "from a read-only handle"):
+            for mname, call in mutators(rng).items():
+                n += 1
+                case = dict(mutator=mname, mode="copy taken " + how)
+                cpath = os.path.join(d, "copy2.tdf")
+                if os.path.exists(cpath):
+                    os.remove(cpath)
+                t = fresh()
+                try:
+                    if how == "inside a write context":
+                        with t.allow_write() as tt:
+                            c = tt.copy(cpath)
+                    elif how == "after allow_write without context":
+                        t.allow_write()
+                        c = t.copy(cpath)
+                    else:
+                        c = t.copy(cpath)
+                except Exception as e:
+                    fails.append(_f("C08", "C08.setup", f"copy {how} raised {e!r}", case, seed))
+                    break
+                before = _sha(cpath)
+                raised = False
+                try:
+                    with c:
+                        call(c)
+                except Exception:
+                    raised = True
+                if _sha(cpath) != before:
+                    fails.append(_f("C08", "C08.modified", f"{mname} in a plain context on a copy taken {how} changed the copy (no allow_write() was called on it)", case, seed))
+                elif not raised:
+                    fails.append(_f("C08", "C08.not_refused", f"{mname} in a plain context on a copy taken {how} did not raise", case, seed))
     finally:
         shutil.rmtree(d, ignore_errors=True)
     return dict(what="every mutator x refused access mode, every reader x mode, on a real file (sha256 before/after, handle state)", cases=n, label="bounded",
-                bound="8 mutators x 8 refused modes + write context; 19 readers x 4 modes"), fails
+                bound="8 mutators x 8 refused modes + write context; 19 readers x 4 modes; 8 mutators on copies taken in 3 modes"), fails
 
 
 def check_c17(seed, tier, root=None):
@@ -211,8 +244,49 @@ def check_c17(seed, tier, root=None):
                     pass
                 except Exception as e:
                     fails.append(_f("C17", "C17.clobber", f"{op} onto an {what} raised {e!r} instead of FileExistsError", case, seed))
-                if open(p, "rb").read() != content:
+                if not os.path.exists(p):
+                    fails.append(_f("C17", "C17.clobber", f"{op} onto an {what} removed that file", case, seed))
+                elif open(p, "rb").read() != content:
                     fails.append(_f("C17", "C17.clobber", f"{op} onto an {what} changed that file ({len(content)} -> {os.path.getsize(p)} bytes)", case, seed))
+        # frame over the whole directory: a successful new / copy creates exactly the path it was given, a refused one
+        # creates nothing, and neither touches any other file -- for names with, without and with another extension,
+        # next to siblings that differ only in the extension
+        def dir_state(dd):
+            return {f: _sha(os.path.join(dd, f)) for f in sorted(os.listdir(dd))}
+        for stem in ("trial01", "trial01.tdf", "trial01.TDF", "trial01.bin", "trial01.tdf.bak", ".hidden"):
+            for op in ("new", "copy"):
+                for present in (False, True):
+                    n += 1
+                    d2 = tempfile.mkdtemp(prefix="frame_", dir=d)
+                    for sib in ("trial01", "trial01.tdf", "trial01.TDF", "trial01.bin", "trial01.tdf.bak", ".hidden", "trial01.tdf.tdf", "trial01.bin.tdf"):
+                        if sib != stem or present:
+                            shutil.copyfile(src, os.path.join(d2, sib)) if (len(sib) % 2) else open(os.path.join(d2, sib), "wb").write(b"sibling " + sib.encode())
+                    before = dir_state(d2)
+                    p = os.path.join(d2, stem)
+                    case = dict(op=op, target=("existing " if present else "absent ") + stem)
+                    raised = None
+                    try:
+                        Tdf.new(p) if op == "new" else Tdf(src).copy(p)
+                    except Exception as e:
+                        raised = e
+                    after = dir_state(d2)
+                    gone = [f for f in before if f not in after]
+                    changed = [f for f in before if f in after and after[f] != before[f]]
+                    created = [f for f in after if f not in before]
+                    if gone or changed:
+                        fails.append(_f("C17", "C17.clobber", f"{op}({stem!r}) with {'an existing' if present else 'no'} file of that name: existing files {'removed ' + str(gone) if gone else ''}"
+                                        f"{' changed ' + str(changed) if changed else ''}", case, seed))
+                    if present:
+                        if not isinstance(raised, FileExistsError):
+                            fails.append(_f("C17", "C17.clobber", f"{op} onto existing {stem!r} {'raised ' + repr(raised) if raised else 'did not raise'} instead of FileExistsError", case, seed))
+                        if created:
+                            fails.append(_f("C17", "C17.clobber", f"refused {op} onto existing {stem!r} created {created}", case, seed))
+                    else:
+                        if raised is not None:
+                            fails.append(_f("C17", "C17.create", f"{op} to the absent path {stem!r} raised {raised!r}", case, seed))
+                        elif len(created) != 1:
+                            fails.append(_f("C17", "C17.create", f"{op} to the absent path {stem!r} created {created} instead of exactly one new file", case, seed))
+                    shutil.rmtree(d2, ignore_errors=True)
         # new: canonical empty container
         n += 1
         p = os.path.join(d, "fresh.tdf")
@@ -295,7 +369,7 @@ def check_c17(seed, tier, root=None):
                     pass
     finally:
         shutil.rmtree(d, ignore_errors=True)
-    return dict(what="create / copy / open contracts on real paths", cases=n, label="bounded", bound="5 kinds of existing target x new/copy; copy inside and outside a write context; 4 foreign files"), fails
+    return dict(what="create / copy / open contracts on real paths", cases=n, label="bounded", bound="5 kinds of existing target x new/copy; 6 path names x new/copy x present/absent with a whole-directory frame; copy inside and outside a write context; 4 foreign files"), fails
 
 
 def replay(recipe, repo_root):
